@@ -34,7 +34,7 @@ RULE = ("Hypothesis draws an EXPRESS schema (codegen profile: simple/defined/enu
 NONTRIV = {"aggregate>=2", "nested-aggregate", "typed-select", "complex-instance", "string-escape", "real-exponent",
            "forward-ref", "star"}
 
-SCHEMA_CFG = {"p_redecl": 45, "p_select_alias_pair": 60, "p_nested_select": 60, "min_typ": 3, "max_typ": 12,
+SCHEMA_CFG = {"redundant_supers": False, "p_redecl": 45, "p_select_alias_pair": 60, "p_nested_select": 60, "min_typ": 3, "max_typ": 12,
               "type_weights": {"simple": 20, "alias": 18, "enum": 14, "enum_alias": 6, "agg": 12, "select": 30},
               "attr_weights": {"simple": 30, "defined": 10, "enum": 8, "select": 17, "entity": 15, "agg": 20}}
 
@@ -162,7 +162,11 @@ def case(ctx, x):
             if not oracle(ctx.lib, pop2, p21render.render(pop2, layout, feats=feats - {"comment-inner"}), ctx.wd, tag + "e"):
                 ctx.known("pop:number-int-in-aggregate")
                 return
-        if "pop:nested-select-complex-ref" in ctx.open_sigs and any("not a valid type for SELECT" in p for p in probs) \
+        # F43: the reference is lost (null) - with the reader's message when the slot is in a simple instance or a head
+        # part, silently when it is in another part of a complex instance (F36)
+        if "pop:nested-select-complex-ref" in ctx.open_sigs \
+                and all(("not a valid type for SELECT" in p) or re.search(r"expected #\d+, got \('null',\)$", p)
+                        or p.startswith("p21read exit status") or p.startswith("read of a conforming file") for p in probs) \
                 and p21gen.has_nested_select_complex_ref(expmodel.Schema(ctx.lib["schema"]), pop):
             ctx.known("pop:nested-select-complex-ref")
             return
